@@ -1,7 +1,8 @@
 (* C04/Props.v — property-level theorems of C04 over the C04 model (Cluster model + fault events + recovery
    bookkeeping, coq/theories/C04/Model.v). *)
 From Coq Require Import List ZArith Bool Lia.
-From BLB Require Import Gen.Consts Cluster.Model Cluster.Proofs Cluster.Frame C04.Model C04.Proofs C04.Witness.
+From BLB Require Import Gen.Consts Cluster.Model Cluster.Proofs Cluster.Frame Cluster.Window Cluster.Sched C04.Model C04.Proofs C04.Witness
+     C04.NoLossInv C04.NoLossSched C04.NoLossRun C04.NoLoss C04.NoLossHost C04.NoLossKeep C04.Progress.
 Import ListNotations.
 Open Scope Z_scope.
 
@@ -142,3 +143,138 @@ Example dX0_tie_fails_closed :
         [73; 0; 1; 40; 0]; [77; 1; 0; 1]]
   = [[]; [0]; [0]; []; [0]; [0]; [0]; []; [0]; [0]; [cl_ErrNoSuchTract; 0]; [1; 0; 1]].
 Proof. vm_compute. reflexivity. Qed.
+
+(* ------------------------------------------------------------------ run level: the visibility ladder over the C04 alphabet *)
+(* The schedules are those accepted by the decidable predicate NoLossSched.c04_ok_run 4 (text in NoLossSched.v):
+   on the events of the Cluster alphabet exactly Sched.ok_ev 4 of the C01 ladder (single writer discipline, what the
+   real client does, fresh task ids, no probe event 17, lost and duplicated replies, failed requests, restarts and
+   leader changes allowed) with C01's two carve outs - no superseded PullTract takes effect (Sched.stale_pull, the F21
+   trigger) and no crash in the middle of PullTract (mode 6); corrupt faults on any replica, delete faults on replicas
+   of durable tracts, scrub steps, heartbeats with failure reports, CheckTracts, health beliefs, detect rounds and
+   popTask plus runTask under a fresh id are all accepted; and after every event the premise of the property must
+   hold as the decidable check NoLossSched.premise - every durable tract has a durable host whose replica is present
+   and undamaged and at a version not below the durable one and holds the record of every acknowledged write. *)
+
+(* [PARTIAL] c04_no_loss at run level - along every schedule accepted by c04_ok_run 4 which is the alphabet of the C01 visibility ladder at its top level extended by corrupt and delete faults and scrub and heartbeat and CheckTracts and health belief and detect round and popTask plus runTask events with the property's premise checked after every event and with exactly the two carve outs of C01 namely no superseded PullTract takes effect and no crash inside PullTract - first every durable host of every tract damaged or not shows at the durable version on every byte the newest write covering it whenever that write was acknowledged and zero if never written so reads keep returning acknowledged bytes whichever undamaged host answers - second every durable tract has a host whose replica is present and undamaged at the durable version or one ahead and holds the record of every acknowledged write and every present replica of a durable host is in that version window and holds all those records - third a Read executed at a tractserver answers exactly read_reply that is no such tract if the replica is gone and version mismatch if the version differs and the corrupt data error with no payload if the replica is damaged and otherwise the rendering of the replica's content and it changes neither data nor damage marks so a read answered by a damaged replica fails closed - fourth the premise is preserved by repair in the sense that an intact current replica stays intact and current through every accepted event whether SetVersion or PullTract however late or duplicated or retried or a reply delivery or task step or detect round unless a corrupt or delete fault names it or the event commits a new durable record for its tract. PARTIAL because of the two carve outs inherited from C01 and because the commit case of the fourth clause is refuted by c04_repair_keeps_premise_refuted *)
+Theorem c04_no_loss_run_partial : forall evs,
+  c04_ok_run 4 cinit evs = true ->
+  let cs := crun_state cinit evs in
+  (forall b t h p, 0 <= p < TL -> vis_ok (c_base cs) b t h p = true) /\
+  (forall tk dv H, tget (s_dtr (c_base cs)) tk = Some (dv, H) ->
+     (exists h r, In h H /\ rget (s_reps (c_base cs)) (h, tk) = Some r /\ rmem (h, tk) (c_cor cs) = false /\
+                  dv <= r_ver r <= dv + 1 /\ holds_acked (c_base cs) tk r = true) /\
+     (forall h r, In h H -> rget (s_reps (c_base cs)) (h, tk) = Some r ->
+                  dv <= r_ver r <= dv + 1 /\ holds_acked (c_base cs) tk r = true)) /\
+  (forall e oracle, k_kind (p_rpc e) = K_Read ->
+     exists cs', c04_exec_rpc cs e oracle =
+                   (cs', read_reply cs (k_ts (p_rpc e)) (tkey (k_blob (p_rpc e)) (k_tract (p_rpc e))) (k_ver (p_rpc e)) (k_len (p_rpc e)) (k_off (p_rpc e)), []) /\
+                 c_base cs' = c_base cs /\ c_cor cs' = c_cor cs) /\
+  (forall ev tk dv H h, c04_ok_ev 4 cs ev = true ->
+     tget (s_dtr (c_base cs)) tk = Some (dv, H) -> In h H -> intact_current cs tk dv h = true ->
+     let cs' := fst (cstep cs ev) in
+     (tget (s_dtr (c_base cs')) tk = Some (dv, H) /\ intact_current cs' tk dv h = true) \/
+     (exists ts b t, (ev = [60; ts; b; t] \/ ev = [61; ts; b; t]) /\ (h, tk) = (ts, tkey b t)) \/
+     tget (s_dtr (c_base cs')) tk <> Some (dv, H)).
+Proof. exact c04_no_loss_run2. Qed.
+Print Assumptions c04_no_loss_run_partial.
+
+(* non-vacuity: the directed schedule dA (corrupt fault, scrub, report, failed repair, detect rounds, retried repair,
+   reads) is accepted with the premise holding after every event, at level 2 and above but not at level 1 (it
+   contains a request that fails without executing); one write is acknowledged, a fault and a repair happen *)
+Example c04_no_loss_run_nonvacuous :
+  c04_ok_run 4 cinit dA_ops && c04_ok_run 2 cinit dA_ops && negb (c04_ok_run 1 cinit dA_ops) &&
+  (1 <=? Z.of_nat (length (s_acked (c_base (crun_state cinit dA_ops))))) &&
+  existsb (fun ev => hd 0 ev =? 60) dA_ops && existsb (fun ev => hd 0 ev =? 67) dA_ops &&
+  full_redundancy (crun_state cinit dA_ops) 0 0 2 = true.
+Proof. vm_compute. reflexivity. Qed.
+
+(* [REFUTED] c04_repair_keeps_premise - the claim that every repair event preserves the premise fails in the model at the commit - there is a schedule accepted by c04_ok_run 4 so with the premise holding after every event and every fault respecting it followed by one accepted event that is no fault namely the delivery of a PullTract reply code 8 after which the premise is false. In the witness which is dA followed by NoLossKeep.drop_ext the curator believes a serving host down and repairs around it and the survivor and the fresh copy are damaged by two faults while the believed down host still holds the intact current replica and the commit then installs the two damaged replicas and drops the intact one which stays at the old version. NoLossKeep.repair_drops_last_intact_replica has the details by computation. Model level only - not replayed on the real code *)
+Theorem c04_repair_keeps_premise_refuted :
+  exists evs ev, c04_ok_run 4 cinit evs = true /\ c04_ok_ev 4 (crun_state cinit evs) ev = true /\ hd 0 ev = 8 /\
+                 premise (crun_state cinit evs) = true /\ premise (fst (cstep (crun_state cinit evs) ev)) = false.
+Proof. exact repair_keeps_premise_refuted. Qed.
+Print Assumptions c04_repair_keeps_premise_refuted.
+
+(* ------------------------------------------------------------------ run level: repair never degrades *)
+(* [PARTIAL] c04_repair_never_degrades at run level - first for every state and every event of the extended alphabet whether a step of replicateTract or of PullTract or a duplicate or a retry or a late straggler a replica that is present and undamaged is afterwards still present and undamaged with a version that is not lower unless a corrupt or delete fault names it or a PullTract addressed to this very replica executes - second damage marks only come from corrupt faults so no repair step ever marks or produces a damaged copy - third along every schedule accepted by c04_sched 4 which is c04_ok_run 4 without the premise and so with the two carve outs of C01 whenever an accepted event changes the durable record of a tract every replica held by a host of the new record is at the new durable version or one ahead and holds the record of every acknowledged write and is damaged only if it was damaged before or the event is the corrupt fault on it so repair never installs a stale or partially copied or freshly corrupted replica as a durable host - fourth along these schedules an undamaged replica of a durable host at a version not below the durable one is kept by every accepted event other than a fault on it so also by every PullTract however late or duplicated or retried - fifth the two task invariants behind the fourth clause hold in every reachable state namely a PullTract request for the version after the durable one is never addressed to a durable host and a running replicateTract task whose version is still the durable one has every durable host among its survivors or its bad set. Open and therefore PARTIAL - that the content of a new host equals that of a bumped undamaged source at the committed version across interleavings which is proved at the Store level in c04_pull_copies_only_undamaged_current_source and in functional form in c04_repair_progress_functional_partial and at run level only in the weaker form of the third clause *)
+Theorem c04_repair_never_degrades_run_partial :
+  (forall cs ev k r,
+     rget (s_reps (c_base cs)) k = Some r -> rmem k (c_cor cs) = false ->
+     let cs' := fst (cstep cs ev) in
+     (exists r', rget (s_reps (c_base cs')) k = Some r' /\ r_ver r <= r_ver r' /\ rmem k (c_cor cs') = false) \/
+     (exists ts b t, (ev = [60; ts; b; t] \/ ev = [61; ts; b; t]) /\ k = (ts, tkey b t)) \/
+     (exists mode rest rp r1, ev = 7 :: mode :: rest /\ parse_rpc rest = Some (rp, r1) /\ mode <> 4 /\
+                              k_kind rp = K_PullTract /\ k = rpc_key_of rp)) /\
+  (forall cs ev k,
+     rmem k (c_cor (fst (cstep cs ev))) = true ->
+     rmem k (c_cor cs) = true \/ exists ts b t, ev = [60; ts; b; t] /\ k = (ts, tkey b t)) /\
+  (forall evs ev, c04_sched 4 cinit evs = true ->
+     let cs := crun_state cinit evs in
+     c04_ok_ev 4 cs ev = true ->
+     let cs' := fst (cstep cs ev) in
+     forall tk dv' H', tget (s_dtr (c_base cs')) tk = Some (dv', H') -> tget (s_dtr (c_base cs)) tk <> Some (dv', H') ->
+     forall h r', In h H' -> rget (s_reps (c_base cs')) (h, tk) = Some r' ->
+       dv' <= r_ver r' <= dv' + 1 /\ holds_acked (c_base cs') tk r' = true /\
+       (rmem (h, tk) (c_cor cs') = true ->
+        rmem (h, tk) (c_cor cs) = true \/ exists ts b t, ev = [60; ts; b; t] /\ (h, tk) = (ts, tkey b t))) /\
+  (forall evs ev tk dv H h r, c04_sched 4 cinit evs = true ->
+     let cs := crun_state cinit evs in
+     c04_ok_ev 4 cs ev = true ->
+     tget (s_dtr (c_base cs)) tk = Some (dv, H) -> In h H ->
+     rget (s_reps (c_base cs)) (h, tk) = Some r -> dv <= r_ver r -> rmem (h, tk) (c_cor cs) = false ->
+     let cs' := fst (cstep cs ev) in
+     (exists r', rget (s_reps (c_base cs')) (h, tk) = Some r' /\ r_ver r <= r_ver r' /\ rmem (h, tk) (c_cor cs') = false) \/
+     (exists ts b t, (ev = [60; ts; b; t] \/ ev = [61; ts; b; t]) /\ (h, tk) = (ts, tkey b t))) /\
+  (forall evs, c04_sched 4 cinit evs = true ->
+     let st := c_base (crun_state cinit evs) in
+     (forall e, In e (s_pool st) -> k_kind (p_rpc e) = K_PullTract ->
+        forall dv H, tget (s_dtr st) (rtk (p_rpc e)) = Some (dv, H) -> k_ver (p_rpc e) = dv + 1 -> ~ In (k_ts (p_rpc e)) H) /\
+     (forall t, In t (s_tasks st) -> t_kind t = 5 -> 0 < t_phase t ->
+        forall dv H, tget (s_dtr st) (ttk t) = Some (dv, H) -> t_dv t = dv -> forall h, In h H -> In h (t_ok t) \/ In h (t_bad t))).
+Proof. exact repair_never_degrades_run2. Qed.
+Print Assumptions c04_repair_never_degrades_run_partial.
+
+(* ------------------------------------------------------------------ progress, functional form *)
+(* [PARTIAL] c04_repair_progress in functional form - Progress.complete_repair runs one replicateTract task of the model to completion with every reply delivered using the model's own start_task and activate and Store.SetVersion and task_reply and the C04 PullTract that skips damaged sources and change_tract and finish_task where only the transport of a request through the RPC pool is idealised. From every state that satisfies the run invariants and in which no other task is active and the tract is durable with distinct hosts and the bad set is a non empty duplicate free part of the hosts that leaves survivors and the leader knows survivors and bad hosts and every survivor still holds a replica and at least one survivor is undamaged and placement picked as many distinct eligible spares as there are bad hosts the run ends with the task finished without error and the durable record at the next version with the hosts survivors then new hosts which are as many as before and on distinct servers and every host holds a replica at the new version and every new host holds an undamaged copy of the content of an undamaged survivor and the survivors keep content and damage status. The deficit that is the number of durable hosts without an undamaged current replica drops by exactly the number of bad hosts that had none so every completed task whose bad set contains such a host strictly decreases it and it is zero afterwards when all survivors were undamaged which is full redundancy. Open and therefore PARTIAL - the pool transport find_pent and resume and flush is not traversed so this is not yet a statement about cstep event sequences and the bad set is an input tied to the recovery loop's selection only through c04_selected_bad_set_wellformed and a survivor whose replica was deleted makes the bump fail so that tract needs another detection round first *)
+Theorem c04_repair_progress_functional_partial : forall cs op blob tract bad place repl nt dv hosts,
+  repair_pre cs blob tract bad place repl nt dv hosts ->
+  let tk := tkey blob tract in
+  let ok := survivors hosts bad in
+  let cs' := complete_repair cs op blob tract bad place in
+  tget (s_dtr (c_base cs')) tk = Some (dv + 1, ok ++ place) /\
+  length (ok ++ place) = length hosts /\ NoDup (ok ++ place) /\
+  s_tasks (c_base cs') = [] /\ s_fin (c_base cs') = s_fin (c_base cs) ++ [(op, cl_NoError)] /\
+  (forall h, In h (ok ++ place) -> exists r', rget (s_reps (c_base cs')) (h, tk) = Some r' /\ r_ver r' = dv + 1) /\
+  (forall n, In n place -> undamaged_current cs' tk (dv + 1) n = true /\
+     exists g s, In g ok /\ rget (s_reps (c_base cs)) (g, tk) = Some s /\ rmem (g, tk) (c_cor cs) = false /\
+                 rget (s_reps (c_base cs')) (n, tk) = Some {| r_ver := dv + 1; r_app := r_app s |}) /\
+  (forall h, In h ok -> undamaged_current cs' tk (dv + 1) h = undamaged_current cs tk dv h) /\
+  (deficit cs tk = deficit cs' tk +
+                   length (filter (fun h => negb (undamaged_current cs tk dv h)) (filter (fun h => zmem h bad) hosts)))%nat /\
+  ((forall h, In h ok -> rmem (h, tk) (c_cor cs) = false) -> deficit cs' tk = O).
+Proof. exact repair_restores. Qed.
+Print Assumptions c04_repair_progress_functional_partial.
+
+(* non-vacuity and the tie to the event scheduler on one instance: in the directed schedule dA, right before the
+   retried repair is popped (event 33), the premises of the theorem hold for bad = [2] and placement [1]; the
+   functional run and the events 33..36 of the schedule (popTask, SetVersion, PullTract, commit) reach the same
+   durable version, the same host set and identical replicas, and the deficit goes from 1 to 0 *)
+Example c04_repair_progress_nonvacuous :
+  let cs0 := crun_state cinit (firstn 33 dA_ops) in
+  let csA := complete_repair cs0 3 0 0 [2] [1] in
+  let csB := crun_state cinit (firstn 37 dA_ops) in
+  repair_pre cs0 0 0 [2] [1] 2 1 1 [2; 4] /\
+  (tget (s_dtr (c_base csA)) (0, 0) = Some (2, [4; 1]) /\ tget (s_dtr (c_base csB)) (0, 0) = Some (2, [1; 4])) /\
+  forallb (fun h => list_eqb (dump_replica (s_reps (c_base csA)) h (0, 0)) (dump_replica (s_reps (c_base csB)) h (0, 0))) [1; 2; 3; 4] = true /\
+  (deficit cs0 (0, 0) = 1%nat /\ deficit csA (0, 0) = 0%nat /\ deficit csB (0, 0) = 0%nat).
+Proof. exact repair_dA. Qed.
+
+(* [FULL] c04_selected_bad_set_wellformed - the tie of the functional progress theorem to the recovery loop's choice. Whenever the tract scan of one detect round which is recovery.tractTask plus syncTask transcribed as Model.rec_each leaves a queue entry for a tract whose durable hosts are distinct the bad set of that entry which is the sorted list of the hosts believed down or reported corrupt and which popTask must hand to replicateTract unchanged is not empty and leaves at least one survivor and consists of hosts only and survivors plus bad hosts are exactly as many as the hosts so the structural premises of repair_pre on the bad set hold for every task the model selects *)
+Theorem c04_selected_bad_set_wellformed : forall down rcor rent unrec tk dv hosts rcor' rent' unrec' e,
+  rec_each down (rcor, rent, unrec) (tk, (dv, hosts)) = (rcor', rent', unrec') ->
+  distinct hosts = true -> ent_get rent' tk = Some e ->
+  let bad := e_bad e in
+  survivors hosts bad <> [] /\ bad <> [] /\ (length (survivors hosts bad) + length bad = length hosts)%nat /\
+  (forall h, In h bad -> In h hosts).
+Proof. exact selected_bad_set. Qed.
+Print Assumptions c04_selected_bad_set_wellformed.
